@@ -9,11 +9,11 @@
      epoch (duration_since(..).unwrap()) and for seconds >= 2^63 (i64::try_from(..).unwrap()).
    * `+ Duration` panics when as_secs() >= 2^63 ([PanicTryFrom]); when sec + as_secs() > i64::MAX
      the i64 addition overflows ([Overflow]: debug panic, release wrap) -- both outside the domain.
-   * the model computes in unbounded Z; every intermediate value of the code lies between 0 and
-     max(input fields, input seconds, resulting year), so no other i64 overflow exists for results
-     whose year fits an i64 (argued, not proved here). *)
+   * the model computes in unbounded Z; C16.1c proves that on these domains no i64 operation of
+     the code overflows (Model/TimeI64.v instruments every `+ - * /` site), so the unbounded model
+     and the i64 code agree in both build profiles. *)
 From Coq Require Import ZArith.
-From SV Require Import Base.Bytes Spec.Civil Model.Time Proofs.TimeP.
+From SV Require Import Base.Bytes Spec.Civil Model.Time Model.TimeI64 Proofs.TimeP Proofs.TimeI64P.
 Open Scope Z_scope.
 
 (* C16.1  For EVERY epoch second s >= 0 (unbounded) and every fuel >= s/31536000 + 14,
@@ -30,6 +30,33 @@ Proof. exact new_correct. Qed.
 Theorem c16_result_year_bound :
   forall t s, valid_dt t -> secs_of_civil t = s -> 0 <= s -> 1970 <= year t <= 1970 + s / 31536000.
 Proof. exact result_year_bound. Qed.
+
+(* C16.1c no intermediate overflow.  [new_chk] / [add_chk] are the code with EVERY i64 `+= -= + - * /`
+   of balance, balance_min, balance_hour, balance_day (both loops), balance_month, new and add
+   checked against -2^63 .. 2^63-1 (outcome Overflow = debug panic / release wrap).  They equal the
+   unbounded model for every fuel:
+     new : every i64 argument 0 <= s < 2^63;
+     add : every valid date-time with |year| <= 9.2 * 10^18 (the property's years 0..9999 and far
+           beyond) and every duration with sec + secs < 2^63.
+   Excluded, and explicit outcomes of the model: s < 0 (not a timestamp the library renders),
+   secs >= 2^63 (PanicTryFrom), sec + secs >= 2^63 (Overflow at the `self.sec +=` site itself), and
+   years within 2.3 * 10^16 of i64::MAX / i64::MIN. *)
+Theorem c16_no_intermediate_overflow :
+  (forall s fuel, 0 <= s < 2 ^ 63 ->
+     new_chk fuel s = new fuel s /\
+     ((fuel_for s <= fuel)%nat -> exists t, new_chk fuel s = Ok t /\ dt_in_i64 t)) /\
+  (forall t secs fuel, valid_dt t -> - 9200000000000000000 <= year t <= 9200000000000000000 ->
+     0 <= secs -> sec t + secs < 2 ^ 63 ->
+     add_chk fuel t secs = add fuel t secs /\
+     ((fuel_for secs <= fuel)%nat -> exists t', add_chk fuel t secs = Ok t')).
+Proof. exact no_intermediate_overflow. Qed.
+
+(* the general room condition behind the explicit year range *)
+Theorem c16_add_no_overflow_general :
+  forall t secs fuel, valid_dt t -> 0 <= secs -> sec t + secs <= 9223372036854775807 ->
+    -9223372036854775808 <= year t -> year t + (sec t + secs) / 86400 + 33 <= 9223372036854775807 ->
+    add_chk fuel t secs = add fuel t secs.
+Proof. exact add_no_overflow. Qed.
 
 (* C16.2  canonical forms are unique: a valid date-time is determined by its instant. *)
 Theorem c16_canonical_forms_unique :
@@ -160,14 +187,19 @@ Example c16_nonvacuous :
   valid_dt (mkdt 2024 2 29 23 59 59) /\
   add (fuel_for (146097 * 86400)) (mkdt 2024 2 29 23 59 59) (146097 * 86400) = Ok (mkdt 2424 2 29 23 59 59) /\
   iso8601_utc (fuel_for 253402300799) 253402300799 =
-    Some [57;57;57;57;45;49;50;45;51;49;84;50;51;58;53;57;58;53;57;90]%N.
+    Some [57;57;57;57;45;49;50;45;51;49;84;50;51;58;53;57;58;53;57;90]%N /\
+  (* the overflow checks are live: one day past 31 December of year i64::MAX overflows `year + 1` *)
+  add_chk 20 (mkdt 9223372036854775807 12 31 0 0 0) 86400 = Overflow /\
+  new_chk (fuel_for 68256000) 68256000 = Ok (mkdt 1972 3 1 0 0 0).
 Proof.
   split; [vm_compute; reflexivity|]. split; [apply valid_dtb_spec; vm_compute; reflexivity|].
-  split; vm_compute; reflexivity.
+  repeat split; vm_compute; reflexivity.
 Qed.
 
 Print Assumptions c16_new_correct.
 Print Assumptions c16_result_year_bound.
+Print Assumptions c16_no_intermediate_overflow.
+Print Assumptions c16_add_no_overflow_general.
 Print Assumptions c16_canonical_forms_unique.
 Print Assumptions c16_new_terminates.
 Print Assumptions c16_add_correct.
